@@ -213,10 +213,19 @@ def r3(ctx, prog):
     inv = q.invokes(w, 'send_complete_cb_')
     if not inv:
         raise AnalysisBroken('onWriteCallback: send_complete_cb_ invoke not found')
-    empty = queue_empty_fact(w)
-    for i in inv:
-        ok = bool(empty.get(q.pt(w, i)))
-        ctx.ob('C06.R3', '%s|complete-when-empty' % w.name, ok, 'send_complete_cb_ only where the send queue is known empty', where=w.loc(i['i']))
+    # every place that reports send-complete — the write callback, and any other method or deferred closure of the class
+    sites = []
+    for g in prog.funcs.values():
+        if prog.outermost(g).cls == B:
+            for i in q.invokes(g, 'send_complete_cb_'):
+                sites.append((g, i))
+    for g, i in sites:
+        empty = queue_empty_fact(g)
+        ok = bool(empty.get(q.pt(g, i)))
+        ctx.ob('C06.R3', '%s|complete-when-empty' % locks.site_name(prog, g), ok, 'send_complete_cb_ only where the send queue is known empty' if ok else
+               'send-complete is reported at a point where send_buff_ is not known to be empty%s: data queued by a later send() (a partial write) is still waiting, and '
+               'a user that closes on completion truncates the stream' % (' (a deferred task: whatever held when it was posted need not hold when it runs)' if g.parent_usr else ''),
+               where=g.loc(i['i']))
     wr = [st for st in w.calls() if st.get('fn') == 'write' and 'obj' in st and (w.field_of(st['obj']) or '').endswith('BufferedFd::fd_')]
     hr = sb(w, 'hasRead')
     ok = False
@@ -267,6 +276,22 @@ def r4(ctx, prog):
         g = [(c, br) for c, br in q.lexical_guards(f, d['i'])]
         ok = any((cond_mentions(f, c, 'receive_cb_') and br == 'else') or (cond_mentions(f, c, 'wp_receiver_') and br == 'then') for c, br in g)
         ctx.ob('C06.R4', '%s|discard' % f.name, ok, 'recv_buff_.hasReadAll() only when forwarding to a bound receiver or when no callback is set', where=f.loc(d['i']))
+    # commit implies delivery decision: bytes committed to recv_buff_ reach the hand-over (bound receiver / threshold test) before the callback returns or reports anything else
+    gates = [f.cfg.point_of(st['i']) for st in f.stmts if st and st['k'] in ('BinaryOperator', 'ImplicitCastExpr', 'MemberExpr') and
+             (f.field_of(st['i']) or '').endswith('BufferedFd::wp_receiver_') and f.cfg.point_of(st['i']) is not None]
+    gates += q.pts(f, inv)
+    for h in hw + ap:
+        filt = q.set_flag_filter(f, q.pt(f, h))       # a "got data" flag set before the commit is still set at every later test of it
+        ok = bool(gates) and not f.cfg.exists_path(q.pt(f, h), 'exit', avoid=gates, edge_filter=filt)
+        leak = ''
+        if not ok:
+            for kind in ('read_error_cb_', 'read_zero_cb_'):
+                for i in q.invokes(f, kind):
+                    if f.cfg.exists_path(q.pt(f, h), q.pt(f, i), avoid=gates, edge_filter=filt):
+                        leak = ' (it reaches %s at %s first)' % (kind, f.loc(i['i']))
+        ctx.ob('C06.R4', '%s|commit-then-handover@%s' % (f.name, f.loc(h['i']).split(':')[-1]), ok, 'every path from this commit reaches the hand-over of recv_buff_' if ok else
+               'bytes committed to recv_buff_ here can leave onReadCallback without the hand-over step%s: data that arrived in the same wake-up as an error or close is never '
+               'presented to the receive callback' % leak, where=f.loc(h['i']))
     for i in q.invokes(f, 'read_zero_cb_'):
         ok = any(cond_mentions(f, c, 'rsize') and f.s(f.strip_casts(c)).get('op') == '==' and br == 'then' and f.s(f.strip_casts(f.s(f.strip_casts(c))['ch'][1])).get('cv') == 0 for c, br in q.lexical_guards(f, i['i']))
         ctx.ob('C06.R4', '%s|read-zero' % f.name, ok, 'read_zero_cb_ only under rsize == 0', where=f.loc(i['i']))
